@@ -638,6 +638,41 @@ def fixed_programs(quick: bool) -> list[dict]:
     func.return %y, %x : f32, i32
   }
 }""", [[0, 1, -1, 2 ** 31 - 1], list(F32_VALUES)[:6], [0, 5, -2 ** 31], list(F32_VALUES)[2:8]])
+    # ---- argument permutations at the source level: return every ordered selection of two arguments; pass
+    # permuted arguments to a declared callee (func.call)
+    for t in ("i32", "f32", "f64"):
+        vals = ([11, -22, 2 ** 31 - 1] if t == "i32" else list(fvals(t))[2:5])
+        for n in ((2, 3) if quick else (2, 3, 4)):
+            sig = ", ".join(f"%v{i}: {t}" for i in range(n))
+            for sel in itertools.product(range(n), repeat=2):
+                add(f"perm-return:{t}:{n}:{sel}", f"func.return perm={t}:{perm_shape(sel)}", f"""builtin.module {{
+  func.func @f({sig}) -> ({t}, {t}) {{
+    func.return %v{sel[0]}, %v{sel[1]} : {t}, {t}
+  }}
+}}""", [[vals[(i + j) % 3] for j in range(2)] for i in range(n)])
+    for si in itertools.product(range(2), repeat=1):
+        for sf in itertools.product(range(2), repeat=1):
+            for order in ("if", "fi"):
+                rets = [(f"%i{si[0]}", "i32"), (f"%f{sf[0]}", "f64")]
+                if order == "fi":
+                    rets.reverse()
+                add(f"perm-return:mixed:{si}{sf}{order}", "func.return perm=mixed", f"""builtin.module {{
+  func.func @f(%i0: i32, %f0: f64, %i1: i32, %f1: f64) -> ({rets[0][1]}, {rets[1][1]}) {{
+    func.return {rets[0][0]}, {rets[1][0]} : {rets[0][1]}, {rets[1][1]}
+  }}
+}}""", [[11, -22], list(F64_VALUES)[2:4], [33], list(F64_VALUES)[4:6]])
+    for n in (1, 2, 3):
+        for sel in itertools.islice(itertools.permutations(range(n)), 0, 6):
+            tys = ", ".join(["i32"] * n)
+            add(f"perm-call:{n}:{sel}", f"func.call perm=int:{perm_shape(sel)}", f"""builtin.module {{
+  func.func @g({', '.join(f'%p{i}: i32' for i in range(n))}) -> i32 {{
+    func.return %p0 : i32
+  }}
+  func.func @f({', '.join(f'%v{i}: i32' for i in range(n))}) -> i32 {{
+    %r = func.call @g({', '.join(f'%v{j}' for j in sel)}) : ({tys}) -> i32
+    func.return %r : i32
+  }}
+}}""", [[11 + i] for i in range(n)])
     # ---- scf
     L = list(LOOPV)
     LB = list(LOOPLB)
@@ -923,6 +958,147 @@ def _prologue_shard(task) -> Stats:
         check_prologue(st, prologue_text(regs, shape))
         if (idx + seed) % 61 == 0:
             st.sample({"prologue-family": list(regs), "shape": shape})
+    return st
+
+
+# ======================================================================================
+# Part 1d: argument permutations (parallel moves between argument registers)
+# ======================================================================================
+def perm_shape(mapping) -> str:
+    """mapping[i] = index of the source register moved into destination register i (same register kind, register
+    i of the kind is both source i and destination i).  Names the move graph: identity, fixed-point, chain (a
+    move that is on no cycle), dup (one source feeds several destinations), swap, 3-cycle, 4-cycle."""
+    feats = set()
+    k = len(mapping)
+    moves = {d: s for d, s in enumerate(mapping)}
+    if all(d == s for d, s in moves.items()):
+        return "identity"
+    if len(set(mapping)) < len(mapping):
+        feats.add("dup")
+    on_cycle = set()
+    for d, s in moves.items():
+        if d == s:
+            feats.add("fixed-point")
+            on_cycle.add(d)
+            continue
+        # follow sources: d <- s <- moves[s] ... back to d ?
+        seen, cur = [d], s
+        while cur in moves and cur not in seen and moves[cur] != cur:
+            seen.append(cur)
+            cur = moves[cur]
+        if cur == d:
+            feats.add({2: "swap", 3: "3-cycle", 4: "4-cycle"}.get(len(seen), f"{len(seen)}-cycle"))
+            on_cycle.update(seen)
+    if any(d not in on_cycle for d in moves):
+        feats.add("chain")
+    order = ["fixed-point", "swap", "3-cycle", "4-cycle", "chain", "dup"]
+    return "+".join(sorted(feats, key=lambda f: order.index(f) if f in order else 9))
+
+
+def perm_text(n_int: int, map_int, n_flt: int, map_flt, fwidth: int) -> str:
+    """riscv_func.func whose arguments live in a0.. / fa0.. and whose body is ONE riscv.parallel_mov that moves the
+    selected arguments into a0.. / fa0.. (the IR convert-func-to-riscv-func builds for returns and calls, without
+    the defensive copies)"""
+    args = [f"%x{i} : !riscv.reg<a{i}>" for i in range(n_int)] + [f"%f{i} : !riscv.freg<fa{i}>" for i in range(n_flt)]
+    srcs = [f"%x{s}" for s in map_int] + [f"%f{s}" for s in map_flt]
+    src_t = [f"!riscv.reg<a{s}>" for s in map_int] + [f"!riscv.freg<fa{s}>" for s in map_flt]
+    dst_t = [f"!riscv.reg<a{d}>" for d in range(len(map_int))] + [f"!riscv.freg<fa{d}>" for d in range(len(map_flt))]
+    widths = ["32"] * len(map_int) + [str(fwidth)] * len(map_flt)
+    res = ", ".join(f"%r{i}" for i in range(len(srcs)))
+    return f"""builtin.module {{
+  riscv_func.func @f({', '.join(args)}) -> ({', '.join(dst_t)}) {{
+    {res} = "riscv.parallel_mov"({', '.join(srcs)}) <{{input_widths = array<i32: {', '.join(widths)}>}}> : ({', '.join(src_t)}) -> ({', '.join(dst_t)})
+    riscv_func.return {res} : {', '.join(dst_t)}
+  }}
+}}"""
+
+
+def gen_perms(quick: bool):
+    """yield (n_int, map_int, n_flt, map_flt, fwidth): every selection-with-order (with repetition) of k <= n
+    arguments of a kind, for integers, for floats of either width, and int x float mixes"""
+    nmax = 3 if quick else 4
+    for n in range(2, nmax + 1):
+        for k in range(1, n + 1):
+            for m in itertools.product(range(n), repeat=k):
+                yield n, m, 0, (), 32
+    for fw in (32, 64):
+        for n in (2, 3):
+            for k in range(1, n + 1):
+                for m in itertools.product(range(n), repeat=k):
+                    yield 0, (), n, m, fw
+    for fw in (32, 64):
+        for mi in itertools.product(range(2), repeat=2):
+            for mf in itertools.product(range(2), repeat=2):
+                yield 2, mi, 2, mf, fw
+    if not quick:
+        for mi in itertools.product(range(3), repeat=3):
+            for mf in itertools.product(range(2), repeat=2):
+                yield 3, mi, 2, mf, 64
+
+
+def perm_label(n_int, map_int, n_flt, map_flt, fwidth) -> str:
+    parts = []
+    if map_int:
+        parts.append("int:" + perm_shape(map_int))
+    if map_flt:
+        parts.append(f"f{fwidth}:" + perm_shape(map_flt))
+    return "perm=" + ",".join(parts)
+
+
+def check_perm(st: Stats, n_int, map_int, n_flt, map_flt, fwidth, sample: bool = False) -> None:
+    text = perm_text(n_int, map_int, n_flt, map_flt, fwidth)
+    label = perm_label(n_int, map_int, n_flt, map_flt, fwidth)
+    st.states += 1
+    mod = parse_module(text)
+    status, asm, detail = lower(mod)
+    if status != "ok":
+        st.outcomes[f"reported-failure:{asm}"] += 1
+        rf = st.extra.setdefault("reported_failures", {})
+        rf[f"{asm}: {detail}"] = rf.get(f"{asm}: {detail}", 0) + 1
+        return
+    st.outcomes["lowered:perm"] += 1
+    wit = {"kind": "perm", "n_int": n_int, "map_int": list(map_int), "n_flt": n_flt, "map_flt": list(map_flt), "fwidth": fwidth,
+           "text": text, "asm": asm}
+    try:
+        prog = V.parse(asm)
+    except (V.AsmError, V.Unmodelled) as e:
+        p = asm_problem(st, e)
+        if p is not None:
+            sig = "C22|asm|unallocated-register-in-output" if p[0].startswith("unallocated") else f"C22|pipeline|{p[0]}"
+            st.violate(sig, f"parallel-mov {label}: emitted assembly is not valid: {p[1]}", wit)
+        return
+    xs = [1000 + 7 * i for i in range(n_int)]
+    fs = [V.box_s(f32b(100.0 + i)) if fwidth == 32 else f64b(100.5 + i) for i in range(n_flt)]
+    st.transitions += 1
+    st.executions += 1
+    try:
+        m, init = V.call(prog, "f", xs, fs, max_steps=2000)
+    except V.ExecError as e:
+        st.violate(f"C22|pipeline|asm-does-not-execute|{e.kind}", f"parallel-mov {label}: {e}", wit)
+        return
+    exp = [init["x"][10 + s] for s in map_int] + [init["f"][10 + s] for s in map_flt]
+    got = [m.x[10 + d] for d in range(len(map_int))] + [m.f[10 + d] for d in range(len(map_flt))]
+    st.evaluations += len(exp)
+    if got != exp:
+        st.violate(f"C22|pipeline|parallel-mov {label}|wrong-result",
+                   f"parallel-mov {label}: destination registers hold {[hex(g) for g in got]}, expected {[hex(e) for e in exp]}",
+                   {**wit, "got": got, "expected": exp})
+        st.outcomes["perm:wrong-result"] += 1
+    else:
+        st.outcomes["perm:result-agrees"] += 1
+    for tail, what in callee_state_violations(m, init):
+        st.violate(f"C22|pipeline|{tail}", f"parallel-mov {label}: {what}", wit)
+    if label not in ("perm=int:identity",) and m.steps > 1:
+        st.nontrivial += 1
+    if sample:
+        st.sample({"parallel-mov": label, "asm": asm.splitlines()[2:]})
+
+
+def _perm_shard(task) -> Stats:
+    _, quick, lo, hi, seed = task
+    st = Stats()
+    for idx, spec in enumerate(itertools.islice(gen_perms(quick), lo, hi), lo):
+        check_perm(st, *spec, sample=(idx + seed) % 67 == 0)
     return st
 
 
@@ -1382,7 +1558,8 @@ def _canon_shard(task) -> Stats:
 # run / replay
 # ======================================================================================
 def _task(task) -> Stats:
-    return {"int": _int_shard, "fixed": _fixed_shard, "prologue": _prologue_shard, "canon": _canon_shard}[task[0]](task)
+    return {"int": _int_shard, "fixed": _fixed_shard, "prologue": _prologue_shard, "canon": _canon_shard,
+            "perm": _perm_shard}[task[0]](task)
 
 
 def _count(gen) -> int:
@@ -1396,7 +1573,9 @@ def run(ctx):
     n_fixed = len(fixed_programs(q))
     n_pro = _count(gen_prologue(q))
     n_canon = _count(gen_snippets(q))
-    for kind, n, step in (("int", n_int, 150), ("fixed", n_fixed, 6), ("prologue", n_pro, 40), ("canon", n_canon, 250)):
+    n_perm = _count(gen_perms(q))
+    for kind, n, step in (("int", n_int, 150), ("fixed", n_fixed, 6), ("prologue", n_pro, 40), ("canon", n_canon, 250),
+                          ("perm", n_perm, 40)):
         for lo in range(0, n, step):
             tasks.append((kind, q, lo, min(n, lo + step), ctx.seed))
     # interleave the kinds so that slow shards do not pile up at the end
@@ -1413,6 +1592,7 @@ def run(ctx):
                                f"{list(C_THOROUGH2)}; 3 ops over {list(BIN3)}: one argument + constants {list(C_THOROUGH3)}"),
         "fixed_programs": n_fixed,
         "prologue_programs": n_pro,
+        "argument_permutation_programs": n_perm,
         "canonicalization_snippets": n_canon,
         "canonicalization_variants": list(VARIANTS),
         "inputs_per_integer_argument": list(BOUNDARY),
@@ -1446,6 +1626,9 @@ def replay(rep) -> bool:
         kind = sig.split("|", 2)[2] if sig.endswith("wrong-result") else None
         if kind and any(s.endswith("wrong-result") for s in st.violations):
             return False
+        return sig not in st.violations
+    if w["kind"] == "perm":
+        check_perm(st, w["n_int"], tuple(w["map_int"]), w["n_flt"], tuple(w["map_flt"]), w["fwidth"])
         return sig not in st.violations
     if w["kind"] == "prologue":
         check_prologue(st, w["text"], [tuple(w["args"])] if "args" in w else PRO_INPUTS)
